@@ -46,6 +46,90 @@ def find_caller(ctx: Ctx, key: str) -> Tuple[FuncInfo, ast.Call]:
     raise AnalysisError(f"no call site of {key}")
 
 
+def localise_by_evaluation(ctx: Ctx, rep: Report, lk: FuncInfo) -> bool:
+    """
+    `localise_key(credentials, engine id)` evaluated with `password_to_key(hash, length)` modelled as "a function that
+    tags (password, engine id) with that hash and length": for every authentication protocol of the RFC table the
+    result must be the *privacy* password and the given engine id under that protocol's hash and digest length; an
+    unknown protocol and missing auth / priv settings must raise.  False when the evaluator cannot follow.
+    """
+    from ..engine.minieval import Instance, MiniEval, PyModel, Raised, Sym, Unevaluable
+
+    p2k = ctx.u.maybe_func("puresnmp.util:password_to_key")
+    if p2k is None:
+        return False
+    v3, auth_cls, priv_cls = ctx.u.cls("puresnmp.credentials:V3"), ctx.u.cls("puresnmp.credentials:Auth"), ctx.u.cls("puresnmp.credentials:Priv")
+
+    def p2k_model(args, kwargs):
+        hash_fn, length = (list(args) + [kwargs.get("hash_implementation"), kwargs.get("padding_length")])[:2] if len(args) < 2 else args[:2]
+        return PyModel(lambda a, k: ("localised", repr(hash_fn), length, a[0] if a else None, a[1] if len(a) > 1 else None), f"password_to_key({hash_fn!r}, {length})")
+
+    def creds(method, with_auth=True, with_priv=True) -> Instance:
+        c = Instance(v3, [], {})
+        a = Instance(auth_cls, [], {})
+        a.attrs.update(key=b"auth-password", method=method)
+        p = Instance(priv_cls, [], {})
+        p.attrs.update(key=b"priv-password", method="aes")
+        c.attrs.update(username="operator", auth=a if with_auth else None, priv=p if with_priv else None)
+        return c
+
+    def run_one(c: Instance):
+        try:
+            return "return", MiniEval(ctx, externals={p2k.key: p2k_model}, max_steps=20000).call_function(lk, [c, b"engine-1"], {})
+        except Raised as exc:
+            return "raise", exc.value
+
+    try:
+        for method, spec in sorted(rfc.AUTH_PROTOCOLS.items()):
+            kind, got = run_one(creds(method))
+            ok = kind == "return" and isinstance(got, tuple) and len(got) == 5 and got[0] == "localised" and spec["hash"] in str(got[1]) and got[2] == spec["digest_len"] and got[3] == b"priv-password" and got[4] == b"engine-1"
+            rep.check(ok, "C11-R3", lk.site(), f"auth method {method!r} localises the privacy key with {spec['hash']} / {spec['digest_len']} octets: hasher(<privacy password>, <engine id>) (evaluated)", f"{kind}: {got!r}"[:200], key=f"{lk.key}|hash-table|{method}")
+        # the function keeps nothing between calls: the same evaluator (module-level containers persist in it) asked for
+        # another privacy password / another authentication protocol / another engine under the same user name
+        priv_by_password: Dict[bytes, Instance] = {}
+
+        def creds2(method, password, username="operator") -> Instance:
+            c = creds(method)
+            c.attrs["username"] = username
+            if password in priv_by_password:
+                c.attrs["priv"] = priv_by_password[password]  # equal privacy settings are one (value-equal, hashable) object
+            else:
+                c.attrs["priv"].attrs["key"] = password
+                priv_by_password[password] = c.attrs["priv"]
+            return c
+
+        ev = MiniEval(ctx, externals={p2k.key: p2k_model}, max_steps=40000)
+        history = [("md5", b"first-password", b"engine-1"), ("md5", b"second-password", b"engine-1"), ("sha1", b"second-password", b"engine-1"), ("sha1", b"second-password", b"engine-2")]
+        shared_priv = None
+        stale = []
+        for method, password, engine in history:
+            c = creds2(method, password)
+            if shared_priv is None:
+                shared_priv = c.attrs["priv"]
+            else:
+                # the same Priv *object* re-used with a new password must not matter either (frozen or not)
+                pass
+            try:
+                got = ev.call_function(lk, [c, engine], {})
+            except Raised as exc:
+                stale.append(f"{method}/{password!r}/{engine!r}: raises {exc.value!r}"[:90])
+                continue
+            spec = rfc.AUTH_PROTOCOLS[method]
+            if not (isinstance(got, tuple) and len(got) == 5 and spec["hash"] in str(got[1]) and got[2] == spec["digest_len"] and got[3] == password and got[4] == engine):
+                stale.append(f"{method}/{password!r}/{engine!r}: {got!r}"[:120])
+        rep.check(not stale, "C11-R3", lk.site(), "the key is computed from the credentials and engine id of *this* call: a sequence of calls with a changed privacy password, authentication protocol or engine id never hands back an earlier call's key", "; ".join(stale), key=f"{lk.key}|stale-key-across-calls")
+        bad = []
+        for label, c in (("unknown protocol", creds("sha512-not-in-rfc3414")), ("no auth settings", creds("md5", with_auth=False)), ("no priv settings", creds("md5", with_priv=False))):
+            kind, got = run_one(c)
+            if kind != "raise":
+                bad.append(f"{label}: {kind} {got!r}"[:90])
+        rep.check(not bad, "C11-R3", lk.site(), "unknown authentication methods (and missing auth / priv settings) are refused, never defaulted (evaluated)", "; ".join(bad), key=f"{lk.key}|unknown-method")
+    except Unevaluable as exc:
+        rep.info(f"{lk.qualname} is not followed by the evaluator ({exc}); reading its structure instead")
+        return False
+    return True
+
+
 def run(ctx: Ctx, rep: Report) -> None:
     rep.rule("C11-R1", "with privacy credentials only the plug-in's ciphertext is placed into the outgoing message", floor=2)
     rep.rule("C11-R2", "encrypt / decrypt arguments carry the localised key, engine id, boots, time, (salt,) data in Protocol order", floor=2)
@@ -65,7 +149,7 @@ def run(ctx: Ctx, rep: Report) -> None:
     if isinstance(st, ast.Assign) and isinstance(st.targets[0], ast.Tuple) and len(st.targets[0].elts) == 2:
         enc_name, salt_name = norm(st.targets[0].elts[0]), norm(st.targets[0].elts[1])
     eb = bind_call_args(call, ctx.fn(ENC).params)
-    got = {k: norm(ctx.xexpand(fn, v, depth=2)) for k, v in eb.items()}
+    got = {k: norm(ctx.xexpand(fn, v, depth=2, keep=[ctx.fn(LOCALISE).key])) for k, v in eb.items()}
     # roles of the encryption step's parameters, read off its call site in the security model
     eng = boots_p = time_p = None
     for caller, ccall in ctx.callers_of(fn):
@@ -166,7 +250,7 @@ def run(ctx: Ctx, rep: Report) -> None:
     dcred = dcreds[0] if dcreds else "credentials"
     dmsg = dfn.params[0]
     db = bind_call_args(dcall, ctx.fn(DEC).params)
-    got = {k: norm(ctx.xexpand(dfn, v, depth=2)) for k, v in db.items()}
+    got = {k: norm(ctx.xexpand(dfn, v, depth=2, keep=[ctx.fn(LOCALISE).key])) for k, v in db.items()}
     sp = f"USMSecurityParameters.decode({dmsg}.security_parameters)"
     want = {
         "localised_key": f"localise_key({dcred}, {sp}.authoritative_engine_id)",
@@ -184,10 +268,24 @@ def run(ctx: Ctx, rep: Report) -> None:
     from .walkmodel import assigned_value, reaching_defs
 
     dcfg = ctx.cfg(dfn)
+    msg_base = ctx.u.cls("puresnmp.adt:Message")
+    ddefs2 = ctx.defs(dfn)
     for n in own_nodes(dfn.node):
-        if isinstance(n, ast.Call) and norm(n.func) == "replace" and n.args and norm(n.args[0]) == dmsg:
-            kws = {k.arg: k.value for k in n.keywords}
+        rebuilt = None
+        if isinstance(n, ast.Call) and not (norm(n.func) == "replace"):
+            kcls = ctx.r.resolve_class(dfn.module, n.func)
+            if kcls is not None and ctx.r.is_subclass(kcls, msg_base):
+                # PlainMessage(version=m.version, header=m.header, security_parameters=m.security_parameters, scoped_pdu=..):
+                # the field-wise spelling of replace(m, scoped_pdu=..)
+                fb = bind_call_args(n, dataclass_fields(kcls) or dataclass_fields(msg_base), skip_self=False)
+                others = {k: v for k, v in fb.items() if k != "scoped_pdu"}
+                if "scoped_pdu" in fb and others and all(norm(v) == f"{dmsg}.{k}" for k, v in others.items()):
+                    rebuilt = {"scoped_pdu": fb["scoped_pdu"]}
+        if (isinstance(n, ast.Call) and norm(n.func) == "replace" and n.args and norm(n.args[0]) == dmsg) or rebuilt is not None:
+            kws = rebuilt if rebuilt is not None else {k.arg: k.value for k in n.keywords}
             sp_arg = kws.get("scoped_pdu")
+            if isinstance(sp_arg, ast.Name) and ddefs2.single(sp_arg.id) is not None:
+                sp_arg = ddefs2.single(sp_arg.id)  # scoped_pdu = ScopedPDU.decode(decrypted)
             if set(kws) != {"scoped_pdu"} or not (isinstance(sp_arg, ast.Call) and norm(sp_arg.func) == "ScopedPDU.decode" and len(sp_arg.args) == 1):
                 detail = f"replace({', '.join(sorted(k or '**' for k in kws))})"
                 continue
@@ -217,6 +315,8 @@ def run(ctx: Ctx, rep: Report) -> None:
     lk = ctx.fn(LOCALISE)
     ldefs = ctx.defs(lk)
     lcred, leng = lk.params[0], lk.params[1]
+    if localise_by_evaluation(ctx, rep, lk):
+        return
     rets = [n for n in own_nodes(lk.node) if isinstance(n, ast.Return) and n.value is not None]
     ok = len(rets) == 1
     if ok:
